@@ -4,7 +4,7 @@ import DymVerif.Model.Spons
   Driver/C16 — line protocol over M-Spons.
 
     reset <minAlloc> <minVP>
-    hdr gauge <gid> asset <0|1 perpetual>
+    hdr gauge <gid> asset <0|1 perpetual>          hdr bgauge <gid>   (perpetual asset gauge of the base state)
     hdr rollapp r<i> <rollappGaugeId>
     hdr egauge <gid> r<i> <0|1 perpetual> <coins> <numEpochs>
     vote a<i> <gid>:<w>,…|-          revoke a<i>          claim a<i> <gid>
@@ -105,6 +105,8 @@ def step (s : State) (line : List String) : State × String :=
   | ["reset", ma, mv] => (State.init (int! ma) (int! mv), "ok")
   | ["hdr", "gauge", g, "asset", p] =>
       ({ s with gauges := s.gauges ++ [{ id := nat! g, kind := .asset, perpetual := p = "1" }] }, "ok")
+  | ["hdr", "bgauge", g] =>
+      ({ s with gauges := s.gauges ++ [{ id := nat! g, kind := .asset, perpetual := true }] }, "ok")
   | ["hdr", "rollapp", r, g] =>
       ({ s with gauges := s.gauges ++ [{ id := nat! g, kind := .rollapp (idx! r), perpetual := true }],
                 endorsements := s.endorsements ++ [⟨idx! r, nat! g, 0, 0⟩] }, "ok")
